@@ -52,6 +52,12 @@ class Sim:
     def __init__(self, seed, knobs=None):
         self.seed = seed
         self.knobs = knobs or {}
+        if self.knobs.get("loglevel"):
+            # the library's documented default log level is INFO (records are created, the harness's
+            # handlers stay at ERROR so nothing is printed); a scenario lives in its own fork
+            import logging
+
+            logging.getLogger().setLevel(getattr(logging, str(self.knobs["loglevel"]), logging.ERROR))
         self.now = 0.0  # virtual seconds
         self.reads = 0
         self.active = False
@@ -74,6 +80,7 @@ class Sim:
         self.hash_rng = None
         self.vtime_total = 0.0
         self.on_crash = None  # set inside a simulated worker: report and _exit at once
+        self.timers = []  # virtual threading.Timer objects that were started and not yet fired/cancelled
 
     # -- trace ---------------------------------------------------------------------
     def trace(self, *ev):
@@ -131,6 +138,22 @@ class Sim:
         if d > 0:
             self.now += d
 
+    def fire_due_timers(self, until):
+        """Run every virtual timer due at or before ``until`` (in time order, clock set to its time)."""
+        fired = False
+        while True:
+            due = sorted((t for t in self.timers if t.fire_at <= until), key=lambda t: (t.fire_at, t.seq))
+            if not due:
+                return fired
+            t = due[0]
+            self.timers.remove(t)
+            if t.fire_at > self.now:
+                self.now = t.fire_at
+            self.fire("timer")
+            self.trace("timer.fire", round(t.fire_at, 6))
+            t._run()
+            fired = True
+
     # -- clock -------------------------------------------------------------------------
     def read_clock(self, caller_file):
         # a read from repository code is an observation point; other readers just see time
@@ -143,6 +166,8 @@ class Sim:
                 self.trace("jump", k, f["dur"])
             self.reads += 1
             self.now += 1e-6
+            if self.timers:
+                self.fire_due_timers(self.now)
             self.trace("clk", k, round(self.now, 6))
         return self.now
 
@@ -286,11 +311,41 @@ def install_solver_seams():
                 raise z3.Z3Exception("canceled")
         return s, k, f, dur
 
+    real_solver_set = z3.Solver.set
+    REAL["solver_set"] = real_solver_set
+
+    def solver_set(self, *a, **kw):
+        s = SIM
+        if s is None or not s.active:
+            return real_solver_set(self, *a, **kw)
+        ms = None
+        if "timeout" in kw:
+            kw = dict(kw)
+            ms = kw.pop("timeout")
+        elif len(a) == 2 and a[0] == "timeout":
+            ms, a = a[1], ()
+        if ms is not None:
+            # modelled in virtual time; never handed to the real solver
+            self._sim_timeout_ms = int(ms)
+            s.trace("z3.set_timeout", int(ms))
+            s.probe("z3_plain_solver_limit_set")
+            if not kw and not a:
+                return None
+        return real_solver_set(self, *a, **kw)
+
     def solver_check(self, *a):
         s = SIM
         if s is None or not s.active:
             return real_solver_check(self, *a)
         s, k, f, dur = _pre("z3.check")
+        limit_ms = getattr(self, "_sim_timeout_ms", 0)
+        if limit_ms and limit_ms > 0 and dur * 1000.0 > limit_ms:
+            # a plain solver with a time limit gives up as well
+            s.advance(limit_ms / 1000.0)
+            s.fire("unknown_plain")
+            s.unknown_sites.add(_stack_sig())
+            s.trace("z3.check", k, "unknown", round(s.now, 6))
+            return z3.unknown
         r = real_solver_check(self, *a)
         s.advance(dur)
         s.trace("z3.check", k, str(r), round(s.now, 6))
@@ -351,21 +406,83 @@ def install_solver_seams():
             return ov
         return real_opt_model(self)
 
-    def rc2_compute(self):
+    def rc2_compute(self, *a, **kw):
         s = SIM
         if s is None or not s.active:
-            return real_rc2_compute(self)
+            return real_rc2_compute(self, *a, **kw)
         s, k, f, dur = _pre("rc2.compute")
-        r = real_rc2_compute(self)
+        if s.timers and s.fire_due_timers(s.now + dur):
+            # a timer fired while the call was in progress (e.g. a watchdog interrupting the solver):
+            # its callback has run, the clock stands at its firing time, the call ends there
+            r = real_rc2_compute(self, *a, **kw)
+            s.advance(1e-6)
+            s.trace("rc2.compute", k, "timer-during-call", None if r is None else getattr(self, "cost", None), round(s.now, 6))
+            return r
+        r = real_rc2_compute(self, *a, **kw)
         s.advance(dur)
         s.trace("rc2.compute", k, None if r is None else self.cost, round(s.now, 6))
         return r
 
     z3.Solver.check = solver_check
+    z3.Solver.set = solver_set
     z3.Optimize.check = opt_check
     z3.Optimize.set = opt_set
     z3.Optimize.model = opt_model
     RC2.compute = rc2_compute
+
+
+def install_timer_seam():
+    """threading.Timer under the virtual clock: a started timer fires when virtual time passes its
+    interval - at a clock read, or in the middle of a solver call that spans its firing time."""
+    import threading
+
+    real_timer = threading.Timer
+    REAL["Timer"] = real_timer
+    counter = [0]
+
+    class VTimer:
+        def __new__(cls, interval, function, args=None, kwargs=None):
+            s = SIM
+            if s is None or not s.active:
+                return real_timer(interval, function, args, kwargs)
+            return object.__new__(cls)
+
+        def __init__(self, interval, function, args=None, kwargs=None):
+            self.interval = float(interval)
+            self.function = function
+            self.args = args if args is not None else []
+            self.kwargs = kwargs if kwargs is not None else {}
+            self.fire_at = None
+            self.daemon = True
+            self.finished = threading.Event()
+            counter[0] += 1
+            self.seq = counter[0]
+
+        def start(self):
+            s = SIM
+            self.fire_at = s.now + max(0.0, self.interval)
+            s.timers.append(self)
+            s.probe("virtual_timers_started")
+            s.trace("timer.start", round(self.fire_at, 6))
+
+        def cancel(self):
+            s = SIM
+            if s is not None and self in s.timers:
+                s.timers.remove(self)
+            self.finished.set()
+
+        def _run(self):
+            self.finished.set()
+            self.function(*self.args, **self.kwargs)
+
+        def join(self, timeout=None):
+            return None
+
+        def is_alive(self):
+            s = SIM
+            return s is not None and self in s.timers
+
+    threading.Timer = VTimer
 
 
 def install_deadline_probe():
